@@ -436,6 +436,116 @@ for _name, _n, _par in [("c11", 480, 8), ("c12", 400, 8), ("c13", 240, 8), ("c14
         outcome_key=client_key,
     )
 
+DEFINED_TYPES = {1, 2, 3, 4, 5, 6, 7, 8, 9, 10, 11, 12, 13, 14, 15, 16, 28}   # the 17 decodable types
+
+
+def known_table(name):
+    """`Class::is_defined` / `Type::is_defined` are table look-ups; read the table the translator extracted"""
+    import os
+    path = os.path.join(os.path.dirname(os.path.dirname(os.path.abspath(__file__))), "lean", "Rsdns", "Generated.lean")
+    try:
+        m = re.search(r"def %s : Array Nat := #\[([^\]]*)\]" % name, open(path).read())
+        vals = [int(x) for x in m.group(1).split(",")]
+        return {i for i, v in enumerate(vals) if v != 0}
+    except Exception:
+        return set()
+
+
+def parse_seq_view(v):
+    """-> (header, questions, records, failed) ; records: dict(marker=[7 fields], name, data)"""
+    items = v.split(";") if v else []
+    hdr, qs, recs, failed = None, [], [], False
+    for it in items:
+        if it.startswith("H:"):
+            hdr = it
+        elif it.startswith("Q:"):
+            qs.append(it)
+        elif it.startswith("R:"):
+            f = it.split(":")
+            recs.append(dict(marker=f[1:8], name=f[8], data=":".join(f[9:])))
+            if recs[-1]["data"].startswith("E:"):
+                failed = True
+        elif it.startswith("!E:") or it in ("P", "UB"):
+            failed = True
+    return hdr, qs, recs, failed
+
+
+def views_oracle(req, ans):
+    """C08 on the implementation alone: the views must agree with one another"""
+    c = crash_oracle(req, ans)
+    if c:
+        return c
+    if " | " not in ans:
+        return None
+    parts = ans.split(" | ", 5)
+    d = dict(p.split("=", 1) for p in parts)
+    if d["HH"] != d["HI"]:
+        return "owned-name views differ between Name and InlineName"
+    M, R, HH = parse_seq_view(d["M"]), parse_seq_view(d["R"]), parse_seq_view(d["HH"])
+    okc = lambda v: len([r for r in v[2] if not r["data"].startswith("E:")])
+    # content agreement on common prefixes
+    for a, b, na, nb in ((M, R, "marker", "ref"), (R, HH, "ref", "owned"), (M, HH, "marker", "owned")):
+        if a[0] and b[0] and a[0] != b[0]:
+            return "header differs between %s and %s views" % (na, nb)
+        for x, y in zip(a[2], b[2]):
+            if x["marker"] != y["marker"]:
+                return "record marker differs between %s and %s views: %s vs %s" % (na, nb, x["marker"], y["marker"])
+    for x, y in zip(R[2], HH[2]):
+        if not x["name"].startswith("!") and x["name"] != y["name"]:
+            return "owner name differs between borrowed and owned views"
+    for x, y in zip(R[1], HH[1]):
+        if x != y and "!" not in x:
+            return "question differs between borrowed and owned views"
+    # a view that decodes more never succeeds where a view that decodes less fails
+    if okc(R) > okc(M) or (not R[3] and M[3]):
+        return "the borrowed-name view got further than the bare-marker view"
+    if okc(HH) > okc(R) or (not HH[3] and R[3]):
+        return "the owned-name view got further than the borrowed-name view"
+    # random access = sequential data (same decoder on the same bytes)
+    at = d["AT"].split(";") if d["AT"] else []
+    for i, (x, a) in enumerate(zip(HH[2], at)):
+        if x["data"].startswith("opt:"):
+            continue
+        typed, raw = a.split("~", 1)
+        if x["data"] != typed:
+            return "sequential data of record %d differs from random access: %s vs %s" % (i, x["data"][:60], typed[:60])
+    # iterator view = cursor view restricted to defined types / classes
+    ip = d["I"].split(" | ")
+    if len(ip) == 4 and hexlen(req.split(" ")[1]) <= 65535:
+        irecs = [x for x in ip[3].split(";") if x]
+        want = []
+        for x in HH[2]:
+            m = x["marker"]
+            t, cl = int(m[2]), int(m[3])
+            if x["data"].startswith("E:"):
+                break
+            if t in known_table("TYPE_KNOWN") and t not in DEFINED_TYPES and cl in known_table("CLASS_KNOWN"):
+                break   # OPT / meta types: the iterator stops with UnexpectedType here
+            if cl in known_table("CLASS_KNOWN") and t in DEFINED_TYPES:
+                want.append("R:%s:%s:%s:%s:%s:%s" % (m[6], x["name"], m[3], m[2], m[4], x["data"]))
+        got = [x for x in irecs if x.startswith("R:")]
+        for g, w in zip(got, want):
+            if g != w:
+                return "iterator record differs from the cursor reader's: %s vs %s" % (g[:80], w[:80])
+    return None
+
+
+def nameeq_oracle(req, ans):
+    c = crash_oracle(req, ans)
+    if c:
+        return c
+    if ans == "ne-is-not-negation":
+        return "NameRef::ne is not the negation of NameRef::eq"
+    t = ans.split(" ")
+    if t[0] == "ok" and len(t) >= 4:
+        n1, n2 = t[2][3:], t[3][3:]
+        if not n1.startswith("!") and not n2.startswith("!"):
+            same = bytes.fromhex(n1).lower() == bytes.fromhex(n2).lower()
+            if (t[1] == "true") != same:
+                return "NameRef::eq says %s but the decoded names are %s" % (t[1], "equal" if same else "different")
+    return None
+
+
 def noalloc_canon(ans):
     return re.sub(r"(E:[^ ]*?):ctl:[01]", r"\1", re.sub(r"\?A\d+", "", ans))
 
@@ -456,6 +566,12 @@ def noalloc_oracle(req, ans):
 
 
 STREAMS.update({
+    "views": dict(
+        kinds=["views"], quick=20000, thorough=600000,
+        canon=ident, proj=lambda req, ans: re.sub(r"E:[A-Za-z]+(\([^)]*\))?", "E", ans), impl_oracle=views_oracle,
+        nontrivial=lambda req, ans: "R:" in ans,
+        outcome_key=lambda req, ans: "views:" + ("fail" if "!E:" in ans.split(" | AT=")[0] else "complete"),
+    ),
     "noalloc": dict(
         kinds=["noalloc", "noalloci"], quick=30000, thorough=800000,
         canon=noalloc_canon, proj=lambda req, ans: noalloc_canon(ans), impl_oracle=noalloc_oracle,
@@ -737,6 +853,19 @@ PROPS = {
         streams=[], special=[typecheck_special],
         explanation="C19: std_client_send_sync, async_client_send_sync, async_query_futures_send, ctx_send + cargo check of harness/typecheck.",
         rule="the finite set of Send/Sync assertions in harness/typecheck/src/lib.rs is checked exhaustively by rustc; non-trivial = every assertion",
+    ),
+    "C08": dict(
+        level="proof", module="Rsdns.Props.C08",
+        technique="Lean 4 theorems (Name/InlineName readers are the same function; skip succeeds wherever read does, at the same position) + cross-view agreement oracle on the real code",
+        level_text="Proved for all inputs: read_domain_name::<Name> = read_domain_name::<InlineName>; wherever an owned name is read, "
+                   "skipping it succeeds and resumes at the same position. On the implementation, every message is pushed through six "
+                   "views (markers, borrowed names, owned names of both types, random access, iterator) and an oracle checks pairwise "
+                   "agreement and monotonicity; every pair of names inside a message is compared by NameRef::eq/ne against equality of "
+                   "the decoded names.",
+        level_note="PARTIAL proof: at_eq_seq, iter_vs_hd and nameref_eq (same-offset shortcut) are decided by the oracle + correspondence, "
+                   "not yet theorems (see Props/C08.lean header). Comparison involving MessageReader views is limited to ≤ 65535 bytes.",
+        streams=[dict(name="views"), dict(name="nameeq", impl_oracle=nameeq_oracle)],
+        explanation="C08: read_kinds_agree, skip_of_read, walk_congr_mode; streams `views` and `nameeq`.",
     ),
     "C10": dict(
         level="proof", module="Rsdns.Props.C10",
